@@ -65,6 +65,43 @@ func (p *printer) print(t *Term, depth int) {
 	case OAdd:
 		args("+")
 	case OMul:
+		if AbstractNL {
+			// products of two or more non-constant factors as an uninterpreted function (an
+			// over-approximation: unsat with it implies unsat with real multiplication); factors
+			// are ordered so that commutativity is syntactic
+			var cs, fs []*Term
+			for _, a := range t.Args {
+				if a.Op == OConst {
+					cs = append(cs, a)
+				} else {
+					fs = append(fs, a)
+				}
+			}
+			if len(fs) >= 2 {
+				sort.Slice(fs, func(i, j int) bool { return fs[i].ID < fs[j].ID })
+				if len(cs) > 0 {
+					w("(*")
+					for _, c := range cs {
+						w(" ")
+						p.print(c, depth+1)
+					}
+					w(" ")
+				}
+				for i := 0; i < len(fs)-1; i++ {
+					w("(nlmul ")
+					p.print(fs[i], depth+1)
+					w(" ")
+				}
+				p.print(fs[len(fs)-1], depth+1)
+				for i := 0; i < len(fs)-1; i++ {
+					w(")")
+				}
+				if len(cs) > 0 {
+					w(")")
+				}
+				break
+			}
+		}
 		args("*")
 	case ODiv:
 		args("gdiv")
@@ -155,6 +192,9 @@ const Prelude = `(set-logic ALL)
 
 // Script renders an SMT-LIB2 query: assumptions ∧ ¬goal (if goal != nil) or just assumptions.
 // Shared closed subterms are hoisted into define-fun's so the text is linear in the DAG size.
+// AbstractNL switches the printer to the uninterpreted-product abstraction (see OMul).
+var AbstractNL bool
+
 func Script(assumptions []*Term, goal *Term, extraAxioms []string, wantModel bool) string {
 	var roots []*Term
 	roots = append(roots, assumptions...)
@@ -190,6 +230,9 @@ func Script(assumptions []*Term, goal *Term, extraAxioms []string, wantModel boo
 	}
 	var b strings.Builder
 	b.WriteString(Prelude)
+	if AbstractNL {
+		b.WriteString("(declare-fun nlmul (Int Int) Int)\n")
+	}
 	// declarations
 	var vars []*Term
 	funs := map[string]bool{}
